@@ -12,6 +12,8 @@ CONSTANTS
   AllowSharedMutation = FALSE
   CMaxOps = 2
   AllowScratchReuse = FALSE
+  FieldMax = 7
+  DecWraps = FALSE
   Pairs <- MCPairs
   BaseOf <- MCBaseOf
 INIT Init
